@@ -19954,6 +19954,19 @@ impl<
 						);
 					}
 					for (source, hash, cp_id, chan_id) in shutdown_result.dropped_outbound_htlcs {
+						// The stale `Channel` believes these HTLCs were never sent to our
+						// counterparty (e.g. they were still in its holding cell when the
+						// `ChannelManager` was last persisted). If the newer `ChannelMonitor`
+						// nevertheless contains one of them, it did go out after that point and may
+						// yet be claimed by our counterparty, so we must leave its resolution to the
+						// `ChannelMonitor` rather than failing it backwards here.
+						let sent_after_persist = monitor
+							.get_all_current_outbound_htlcs()
+							.iter()
+							.any(|(monitor_htlc_source, _)| *monitor_htlc_source == source);
+						if sent_after_persist {
+							continue;
+						}
 						let reason = LocalHTLCFailureReason::ChannelClosed;
 						failed_htlcs.push((source, hash, cp_id, chan_id, reason, None));
 					}
